@@ -113,7 +113,8 @@ void MainSolver::insertFormula(PTRef fla) {
     }
 #ifdef OPENSMT_VERIF_TRACE
     if (veriftrace::on()) {
-        veriftrace::emit("{\"e\":\"insert\",\"level\":" + std::to_string(getAssertionLevel()) + ",\"x\":" + std::to_string(fla.x) + "}");
+        veriftrace::emit("{\"e\":\"insert\",\"level\":" + std::to_string(getAssertionLevel()) + ",\"x\":" + std::to_string(fla.x) +
+                         ",\"fid\":" + std::to_string(frames.last().getId()) + ",\"t\":" + veriftrace::termJson(logic, fla) + "}");
     }
 #endif
     // TODO: Move this to preprocessing of the formulas
